@@ -297,6 +297,10 @@ def _static_ok(static: str, exported: str, exact: bool, all_null: bool) -> bool:
     """is the exported polars dtype what the static dtype predicts?  `exact`: Polars backend (concrete
     types must be equal); otherwise up to the numeric family.  Only all-null columns may be Null-typed."""
     st = static[len("const "):] if static.startswith("const ") else static
+    if "tyvar" in st:
+        return False               # an unbound type variable in a static type predicts nothing (D86)
+    if st.startswith("list"):
+        return exported.startswith("List")
     if exported == "Null":
         return all_null
     if st == "null":
